@@ -82,9 +82,12 @@ class AV:
     """tags: what this value *is*; g / r: what its graph / registry field is (Circuit objects
     built with graph=/blackboxes=); elems: what it *contains* (container elements, registry values)."""
 
-    __slots__ = ("tags", "g", "r", "elems", "kind", "fields", "cls")
+    __slots__ = ("tags", "g", "r", "elems", "kind", "fields", "cls", "fn")
 
-    def __init__(self, tags=frozenset(), kind=None, g=frozenset(), r=frozenset(), elems=frozenset(), fields=None, cls=None):
+    def __init__(self, tags=frozenset(), kind=None, g=frozenset(), r=frozenset(), elems=frozenset(), fields=None, cls=None, fn=frozenset()):
+        # fn: the callables this value may be or may hold (a repository function, a lambda, a functools.partial, an
+        # operator.methodcaller / attrgetter, a bound method of a helper object) - what a call through it may reach
+        self.fn = frozenset(fn)
         self.tags = frozenset(tags)
         self.g = frozenset(g)
         self.r = frozenset(r)
@@ -105,7 +108,7 @@ class AV:
                 f = dict(self.fields)
                 for k, v in other.fields.items():
                     f[k] = f[k].join(v) if k in f else v
-                return AV((), "record", fields=f, cls=self.cls)
+                return AV((), "record", fields=f, cls=self.cls, fn=self.fn | other.fn)
             return flatten_record(self).join(flatten_record(other))
         if self.kind == other.kind:
             k = self.kind
@@ -113,13 +116,16 @@ class AV:
             k = None
         else:
             k = self.kind or other.kind
-        return AV(self.tags | other.tags, k, self.g | other.g, self.r | other.r, self.elems | other.elems)
+        return AV(self.tags | other.tags, k, self.g | other.g, self.r | other.r, self.elems | other.elems, fn=self.fn | other.fn)
+
+    def with_fn(self, fn):
+        return AV(self.tags, self.kind, self.g, self.r, self.elems, self.fields, self.cls, fn=fn)
 
     def any_tags(self):
         return self.tags | self.g | self.r | self.elems
 
     def key(self):
-        return (self.tags, self.g, self.r, self.elems, self.kind)
+        return (self.tags, self.g, self.r, self.elems, self.kind, self.fn)
 
     def __eq__(self, o):
         return isinstance(o, AV) and self.key() == o.key()
@@ -139,13 +145,14 @@ def flatten_record(av, depth=0):
     fields are or hold."""
     if av.kind != "record" or depth > 4:
         return av
-    tags, g, r, elems = set(), set(), set(), set()
+    tags, g, r, elems, fn = set(), set(), set(), set(), set(av.fn)
     for f in (av.fields or {}).values():
         f = flatten_record(f, depth + 1)
         elems |= set(f.tags) | set(f.elems)
         g |= set(f.g)
         r |= set(f.r)
-    return AV((), None, elems=elems | g | r)
+        fn |= f.fn
+    return AV((), None, elems=elems | g | r, fn=fn)
 
 
 def compose(part0, rel):
@@ -376,6 +383,11 @@ class Analyzer:
         self.repo = repo
         self.res = Resolver(repo)
         self.summ = {k: Summary(fi) for k, fi in repo.funcs.items()}
+        self.observed_kinds = {}
+        self.inferred_kinds = {}
+        self.lambda_nodes = {}  # id(Lambda node) -> node                             } side tables of the callable descriptors
+        self.partials = {}  # id(partial(...) call node) -> (callables, bound, keywords) } carried in AV.fn
+        self.recmethods = {}  # id(Attribute node) -> (record value, method name)       }
         self.class_methods = {}
         for (rel, q), fi in repo.funcs.items():
             if fi.cls and q.count(".") == 1:
@@ -399,11 +411,22 @@ class Analyzer:
         for rnd in range(max_rounds):
             changed = False
             self.call_sites = self.resolved_sites = self.mutator_sites = 0
+            self.observed_kinds = {}
             for k in sorted(self.repo.funcs):
                 old = self.summ[k].key()
                 s = FuncAnalysis(self, self.repo.funcs[k]).analyze()
                 self.summ[k] = s
                 if s.key() != old:
+                    changed = True
+            # a private helper's undocumented parameter has the kind of what every call site in the package passes for it
+            # (`def _gate_lines(c)` called only with Circuit objects): the public functions document theirs, users cannot call these
+            for (k, p_), kinds in sorted(self.observed_kinds.items()):
+                fi = self.repo.funcs.get(k)
+                if fi is None or not (fi.node.name.startswith("_") and not fi.node.name.startswith("__") or fi.parent is not None):
+                    continue
+                if self.param_kinds[k].get(p_) is None and p_ != "self" and len(kinds) == 1 and next(iter(kinds)) in ("Circuit", "BlackBox", "Graph") and (k, p_) not in self.inferred_kinds:
+                    self.param_kinds[k][p_] = next(iter(kinds))
+                    self.inferred_kinds[(k, p_)] = next(iter(kinds))
                     changed = True
             if not changed:
                 self.rounds = rnd + 1
@@ -423,6 +446,7 @@ class FuncAnalysis:
         self.fn_vars = {}  # local name -> [(file, qual)] of the repository functions it may denote
         self.lambda_vars = {}  # local name -> [ast.Lambda] it may denote (columns of module-level rule tables, local lambdas)
         self.accessor_vars = {}  # local name -> ('method' | 'attr', name) for methodcaller / attrgetter objects
+        self._fn_seen = {}  # id(expression node) -> callables its value may be / hold (see AV.fn)
         self.partial_vars = {}  # local name -> (callee expression node, [bound AVs], {bound keyword AVs})
         self.inline_stack = []
         self.in_loop = 0
@@ -598,10 +622,13 @@ class FuncAnalysis:
         if isinstance(target, ast.Name):
             self.env[target.id] = av
         elif isinstance(target, (ast.Tuple, ast.List)):
+            # unpacking a pair such as (node, attribute dict) from G.nodes(data=True) / .items(): the abstract value of the pair
+            # "is or holds" the live dictionary, so each unpacked name may be it
+            held = AV({t for t in flatten_record(av).tags if t[1] == "attrdict"})
             for e in target.elts:
                 if isinstance(e, ast.Starred):
                     e = e.value
-                self.bind(e, elem_of(av))
+                self.bind(e, elem_of(av).join(held) if held.tags else elem_of(av))
         elif isinstance(target, ast.Attribute):
             recv = self.ev(target.value)
             if recv.kind == "record":
@@ -764,6 +791,28 @@ class FuncAnalysis:
         self.block(st.orelse)
         self.env = self.join_env(after_body, self.env)
 
+    def st_Match(self, st):
+        subj = self.ev(st.subject)
+        before = dict(self.env)
+        out = None
+        for case in st.cases:
+            self.env = dict(before)
+            # every capture may be the subject itself or something it holds
+            cap = subj.join(elem_of(subj))
+            for n in ast.walk(case.pattern):
+                if isinstance(n, (ast.MatchAs, ast.MatchStar)) and n.name:
+                    self.env[n.name] = cap
+                elif isinstance(n, ast.MatchMapping) and n.rest:
+                    self.env[n.rest] = cap
+                elif isinstance(n, ast.MatchValue):
+                    self.ev(n.value)
+            if case.guard is not None:
+                self.ev(case.guard)
+            self.block(case.body)
+            out = dict(self.env) if out is None else self.join_env(out, self.env)
+        # no case may match: the state before is a possible outcome too
+        self.env = self.join_env(before, out) if out is not None else before
+
     def st_With(self, st):
         for item in st.items:
             av = self.ev(item.context_expr)
@@ -811,12 +860,48 @@ class FuncAnalysis:
     st_Nonlocal = st_Import
 
     # ---- expressions --------------------------------------------------
+    # expression kinds whose value may hold whatever callables their operands hold (containers, selections, unpackings)
+    _FN_FLOW = (ast.Dict, ast.List, ast.Tuple, ast.Set, ast.ListComp, ast.SetComp, ast.DictComp, ast.GeneratorExp, ast.Subscript, ast.IfExp, ast.BoolOp, ast.Starred, ast.BinOp)
+    _FN_CARRY_FUNCS = {"next", "iter", "reversed", "enumerate", "zip", "filter", "list", "set", "tuple", "sorted", "frozenset", "dict", "max", "min", "chain", "MappingProxyType", "OrderedDict", "deque", "islice", "cast"}
+    _FN_CARRY_METHODS = {"get", "items", "values", "pop", "setdefault", "copy", "popitem", "__getitem__", "from_iterable"}
+
+    def _fn_operands(self, n):
+        if isinstance(n, (ast.ListComp, ast.SetComp, ast.GeneratorExp)):
+            return [n.elt]
+        if isinstance(n, ast.DictComp):
+            return [n.value]
+        if isinstance(n, ast.Dict):
+            return [v for v in n.values if v is not None]
+        if isinstance(n, ast.Subscript):
+            return [n.value]
+        if isinstance(n, ast.IfExp):
+            return [n.body, n.orelse]
+        if isinstance(n, ast.Call):
+            f = n.func
+            if isinstance(f, ast.Name) and f.id in self._FN_CARRY_FUNCS and f.id not in self.env:
+                return list(n.args)
+            if isinstance(f, ast.Attribute) and f.attr in self._FN_CARRY_METHODS:
+                return [f.value] + list(n.args)
+            if isinstance(f, ast.Attribute) and f.attr in self._FN_CARRY_FUNCS and isinstance(f.value, ast.Name) and f.value.id in ("itertools", "types", "collections", "typing", "builtins"):
+                return list(n.args)
+            return []
+        return [ch for ch in ast.iter_child_nodes(n) if isinstance(ch, ast.expr)]
+
     def ev(self, n):
         if n is None:
             return FRESH
         m = getattr(self, "ex_" + type(n).__name__, None)
         if m:
-            return m(n)
+            av = m(n)
+            if isinstance(n, self._FN_FLOW) or isinstance(n, ast.Call):
+                fn = set()
+                for ch in self._fn_operands(n):
+                    fn |= self._fn_seen.get(id(ch), frozenset())
+                if fn - av.fn:
+                    av = av.with_fn(av.fn | fn)
+            if av.fn or id(n) in self._fn_seen:
+                self._fn_seen[id(n)] = av.fn
+            return av
         out = set()
         for ch in ast.iter_child_nodes(n):
             if isinstance(ch, ast.expr):
@@ -827,7 +912,12 @@ class FuncAnalysis:
         return FRESH
 
     def ex_Name(self, n):
-        return self.env.get(n.id, FRESH)
+        if n.id in self.env:
+            return self.env[n.id]
+        t = self.an.res.resolve(self.rel, n.id, self.fi)
+        if t and t[0] == "func" and (t[1], t[2]) in self.an.summ:
+            return AV(fn={("func", t[1], t[2])})  # a repository function used as a value
+        return FRESH
 
     def ex_Attribute(self, n):
         base = self.ev(n.value)
@@ -919,7 +1009,8 @@ class FuncAnalysis:
             self.env[p] = FRESH
         self.ev(n.body)
         self.env = saved
-        return FRESH
+        self.an.lambda_nodes[id(n)] = n
+        return AV(fn={("lambda", id(n))})
 
     def _comp(self, n, elts):
         saved = dict(self.env)
@@ -966,6 +1057,17 @@ class FuncAnalysis:
         argav = [self.ev(a) for a in n.args]
         kwav = {k.arg: self.ev(k.value) for k in n.keywords}
         f = n.func
+        cn_ = (dotted(f) or "").split(".")[-1]
+        if cn_ == "partial" and n.args and not (isinstance(f, ast.Name) and f.id in self.env):
+            inner = self._fn_seen.get(id(n.args[0]), frozenset()) or argav[0].fn
+            if inner:
+                self.an.partials[id(n)] = (inner, list(argav[1:]), {k: v for k, v in kwav.items() if k})
+                return AV(fn={("partial", id(n))})
+        if cn_ in ("methodcaller", "attrgetter", "itemgetter") and len(n.args) == 1 and not n.keywords and not (isinstance(f, ast.Name) and f.id in self.env):
+            a0 = n.args[0]
+            names = [a0.value] if isinstance(a0, ast.Constant) and isinstance(a0.value, str) else (list(self.const_vars[a0.id]) if isinstance(a0, ast.Name) and a0.id in self.const_vars else None)
+            if names and cn_ != "itemgetter":
+                return AV(fn={("accessor", "method" if cn_ == "methodcaller" else "attr", nm_) for nm_ in names})
         if isinstance(f, ast.Attribute):
             dn = dotted(f)
             target = self.an.res.resolve(self.rel, dn, self.fi) if dn else None
@@ -1052,9 +1154,56 @@ class FuncAnalysis:
             if target and target[0] == "class":
                 self.an.resolved_sites += 1
                 return self.construct(n, target, argav, kwav)
+            fav = self.env.get(f.id)
+            if fav is not None and fav.kind == "record" and fav.cls is not None and self.find_method(fav.cls[0], fav.cls[1], "__call__") is not None:
+                return self.call_record_method(n, fav, "__call__", argav, kwav)  # an instance of a helper class that defines __call__
+            if fav is not None and fav.fn:
+                return self.call_fn(n, fav.fn, argav, kwav)
             return self.call_unknown(n, f.id, argav, kwav)
-        self.ev(f)
+        fav = self.ev(f)
+        if fav.kind == "record" and fav.cls is not None and self.find_method(fav.cls[0], fav.cls[1], "__call__") is not None:
+            return self.call_record_method(n, fav, "__call__", argav, kwav)
+        if fav.fn:
+            return self.call_fn(n, fav.fn, argav, kwav)
         return self.call_unknown(n, norm(f), argav, kwav)
+
+    def call_fn(self, n, fn, argav, kwav, depth=0):
+        """A call through a value: apply every callable the value may be (AV.fn) and join the results."""
+        out = None
+        if depth > 4:
+            return self.call_unknown(n, "<callable value>", argav, kwav)
+        for d in sorted(fn, key=repr):
+            if d[0] == "func":
+                av = self.apply_summary(n, self.an.summ[(d[1], d[2])], argav, kwav, None)
+            elif d[0] == "lambda":
+                lam = self.an.lambda_nodes[d[1]]
+                saved = dict(self.env)
+                for p_, av_ in zip(func_params_lambda(lam), argav):
+                    self.env[p_] = av_
+                for k_, av_ in kwav.items():
+                    if k_:
+                        self.env[k_] = av_
+                av = self.ev(lam.body)
+                self.env = saved
+            elif d[0] == "partial":
+                inner, bound, bkw = self.an.partials[d[1]]
+                av = self.call_fn(n, inner, list(bound) + list(argav), {**bkw, **kwav}, depth + 1)
+            elif d[0] == "accessor" and argav:
+                if d[1] == "attr":
+                    fake = ast.copy_location(ast.Attribute(value=n.args[0], attr=d[2], ctx=ast.Load()), n) if n.args else None
+                    av = self.ex_Attribute(fake) if fake is not None else flatten_record(argav[0])
+                elif argav[0].kind == "record":
+                    av = self.call_record_method(n, argav[0], d[2], argav[1:], kwav)
+                else:
+                    av = self.call_method(n, argav[0], d[2], argav[1:], kwav)
+            elif d[0] == "recmethod":
+                base, attr = self.an.recmethods[d[1]]
+                av = self.call_record_method(n, base, attr, argav, kwav)
+            else:
+                av = self.call_unknown(n, f"<{d[0]}>", argav, kwav)
+            out = av if out is None else out.join(av)
+        self.an.resolved_sites += 1
+        return out if out is not None else FRESH
 
     def bind_actuals(self, params, argav, kwav):
         actual = {}
@@ -1083,6 +1232,10 @@ class FuncAnalysis:
     def find_method(self, rel, cname, mname, depth=0):
         if (rel, f"{cname}.{mname}") in self.repo.funcs:
             return self.repo.funcs[(rel, f"{cname}.{mname}")]
+        # a class defined inside a function: its methods are indexed under the enclosing function's name
+        nested = [fi for (r_, q_), fi in self.repo.funcs.items() if r_ == rel and q_.endswith(f".{cname}.{mname}")]
+        if len(nested) == 1:
+            return nested[0]
         cdef = self.repo.classes.get((rel, cname))
         if cdef is not None and depth < 4:
             for b in cdef.bases:
@@ -1151,7 +1304,8 @@ class FuncAnalysis:
                 decs = {ast.unparse(d).split(".")[-1].split("(")[0] for d in m.node.decorator_list}
                 if decs & {"property", "cached_property"}:
                     return self.inline_call(m, {func_params(m.node)[0]: base}, n)
-                return FRESH  # a bound method object
+                self.an.recmethods[id(n)] = (base, attr)
+                return AV(fn={("recmethod", id(n))})  # a bound method object
             cdef = self.repo.classes.get(base.cls)
             if cdef is not None:
                 for st in cdef.body:
@@ -1172,6 +1326,8 @@ class FuncAnalysis:
             return flatten_record(recv)
         m = self.find_method(recv.cls[0], recv.cls[1], mname) if recv.cls is not None else None
         if m is None:
+            if mname in recv.fields and recv.fields[mname].fn:
+                return self.call_fn(n, recv.fields[mname].fn, argav, kwav)
             if mname in recv.fields:  # a callable stored in a field (a bound method alias, a function)
                 out = set()
                 for a in list(argav) + list(kwav.values()):
@@ -1264,6 +1420,12 @@ class FuncAnalysis:
             return AV((), None, elems=bb_tags(recv))
         if mname == "get":
             return elem_of(recv)
+        if mname in ("nodes", "data", "items", "values") and any(t[1] in ("graph", "nodeview") or (t[1] == "self" and recv.kind == "Graph") for t in recv.tags) \
+                and (mname in ("items", "values", "data") or any(k == "data" for k in kwav) or (mname == "nodes" and argav)):
+            # G.nodes(data=True) / G.nodes.data() / G.nodes.items() / G.nodes.values(): the elements are (or contain) the LIVE
+            # attribute dictionaries of the nodes - dict(...) / list(...) of it still holds them
+            ad = {(p, "attrdict") for (p, part) in recv.tags if part in ("graph", "nodeview") or (part == "self" and recv.kind == "Graph")}
+            return AV({(p, "nodeview") for (p, _) in ad}, None, elems=ad | set(recv.elems))
         if mname in PURE_VIEW_METHODS:
             tags = set()
             sub = mname in ("subgraph", "edge_subgraph")
@@ -1336,9 +1498,10 @@ class FuncAnalysis:
             return AV((), None, elems=out)
         viol = set()
         for a in allargs:
-            viol |= {t[0] for t in a.tags | a.g | a.r if t[1] in VIOLATING_PARTS}
+            # what the callee receives: the tracked object itself, or a container / record holding it
+            viol |= {t[0] for t in a.tags | a.g | a.r | a.elems if t[1] in VIOLATING_PARTS}
         if viol:
-            self.s.unknown_calls.append({"line": n.lineno, "text": norm(n)[:120], "params": sorted(viol), "why": f"unresolved callee {name}() receives a value aliasing parameter(s) {sorted(viol)}"})
+            self.s.unknown_calls.append({"line": n.lineno, "text": norm(n)[:120], "params": sorted(viol), "why": f"unresolved callee {name}() receives a value aliasing (or holding) parameter(s) {sorted(viol)}"})
         out = set()
         for a in allargs:
             out |= bb_tags(a)
@@ -1353,6 +1516,8 @@ class FuncAnalysis:
         else:
             params_rest = params
         actual.update(self.bind_actuals(params_rest, argav, kwav))
+        for p_, av_ in actual.items():
+            self.an.observed_kinds.setdefault(((summ.fi.file, summ.fi.qual), p_), set()).add(av_.kind if not (av_.kind is None and not av_.any_tags()) else "<untracked>")
         for (p, part, how) in sorted(summ.mut):
             if p.startswith("^"):
                 continue
@@ -1441,4 +1606,4 @@ def elem_of(av):
             tags.add((p, part))
     if tags and all(t[1] == "blackbox" for t in tags):
         kind = "BlackBox"
-    return AV(tags, kind)
+    return AV(tags, kind, fn=av.fn)
